@@ -150,6 +150,17 @@ def check_pair(sp, d, siblings=False):
         b = treegen.build(sp2)
     tag = "equal-pair" if d is None else d["kind"]
     exp = compare(a, b, case, tag)
+    # node ids are not among the compared fields: a tree loaded from JSON carries the ids of the tree it was saved from
+    # and still is a distinct tree - it compares to the original, and to the other tree, like any other
+    if not siblings:
+        try:
+            from metapype.model import metapype_io
+            a2 = metapype_io.from_json(metapype_io.to_json(a))
+        except Exception:  # noqa  (C06's matter)
+            a2 = None
+        if a2 is not None and snapshot.ref_equal(a, a2):
+            compare(a, a2, case, "same-ids:tree-and-its-json-reload")
+            compare(a2, b, case, "same-ids:json-reload-vs-other:" + tag)
     outside = d is not None and any(i != 0 for i in d["path"]) or (d is not None and d["kind"].startswith("child"))
     return exp, outside
 
